@@ -84,7 +84,7 @@ Proof.
     intros gname gtok ins outs inits vis nodes IHn sc h h' gid HI Hsc H. cbn in H.
     set (b := nv h). set (ON := 0%N :: out_names nodes).
     assert (S0 : st_ok b ON sc h []).
-    { constructor; auto; [intros k v [] | intros k v x [] | unfold b; lia]. }
+    { constructor; auto; try solve [intros k v [] | intros k v x [] | unfold b; lia]. }
     destruct (alloc_inputs h ins) as [h1 invs] eqn:E1.
     destruct (alloc_inputs_ok _ _ _ _ _ _ _ _ S0 E1) as (S1 & T1 & _ & D1).
     destruct (apply_infos h1 ins invs) as [h2|e] eqn:E2; [|discriminate].
